@@ -12,8 +12,7 @@ import (
 
 	"verif/internal/core"
 
-	_ "verif/checks/c01"
-	_ "verif/checks/c09"
+	_ "verif/checks/c02"
 )
 
 func main() {
